@@ -39,7 +39,7 @@ NoSharesT == [s \in Srv |-> {}]
 
 InitS(c) ==
   LET srv == ToSet(c.servers) IN
-  [ St |-> [s \in srv |-> [fin |-> ToSet(c.pre[s]), inc |-> {}]],
+  [ St |-> [s \in srv |-> [fin |-> ToSet(c.pre[s]), inc |-> ToSet(c.pre_inc[s])]],
     renewed |-> [s \in srv |-> {}],           \* server side: shares whose lease an executed call of this upload added / renewed
     out |-> [s \in srv |-> 0],                \* seq of the outstanding request per server (0 = none)
     reqs |-> <<>>,                            \* seq -> [srv, kind, asked]
@@ -239,7 +239,7 @@ VHang(e) == Same("XP_NoResult")
 
 VQuiescent(e) ==
   LET D == e.disk
-      orphans == UNION {{s} \X ToSet(D[s].incoming) : s \in Srv} \ S.abortLost
+      orphans == (UNION {{s} \X (ToSet(D[s].incoming) \ ToSet(C.pre_inc[s])) : s \in Srv}) \ S.abortLost
   IN IF \E s \in Srv : ToSet(D[s].final) # FinalOn(S.St, s) THEN Same("store_disk_differs")
      ELSE IF \E s \in Srv : ToSet(D[s].incoming) # IncomingOn(S.St, s) THEN Same("store_incoming_differs")
      ELSE IF orphans # {} /\ orphans \subseteq S.lateAlloc THEN Same("XP_NoOrphanBuckets:late_answer")
